@@ -811,6 +811,9 @@ struct Driver {
           if (exn == "overflow_error" && Cfg::flavour == kFCV) fail("C08", "overflow_error from a fixed capacity vector");
         }
       } else {
+        // C08: sizes beyond the limit must have thrown (judged on the reference, before it is resynchronised below)
+        if (alive[a] && static_cast<long>(ref[a].size()) > limit)
+          fail("C08", "size " + std::to_string(ref[a].size()) + " exceeds the limit " + std::to_string(limit) + " without an exception");
         // C01: contents as std::vector
         for (int k = 0; k < K; ++k) {
           if (!alive[k]) continue;
@@ -822,8 +825,6 @@ struct Driver {
             ref[k] = now;  // reported once: later steps are judged from what the container really holds
           }
         }
-        // C08: sizes beyond the limit must have thrown
-        if (alive[a] && static_cast<long>(ref[a].size()) > limit) fail("C08", "size exceeds the limit without an exception");
       }
       // C02: element ledger
       if (G().nErrors != errBefore) {
